@@ -568,6 +568,44 @@ func Run(o *corr.Out) {
 			emit(sc, w, "two-senders")
 		}
 	}
+	// (F) terminated between the frames of a message: every frame is its own transport write; the sender
+	// is parked in the transport after k of its frames when the stream is terminated by a call that does
+	// not wait for the writer (Cancel) or by the peer (error, cancel, close); then the writes are let go.
+	// "Nothing is emitted after termination": the rest of the message must not follow.
+	for _, c := range []struct{ split, wsize int }{{4, 1}, {1, 1}, {3, 8}} {
+		for _, term := range []string{"cancel:1", "cancel:2", "pkt:3:0:1:" + payload(o, 8), "pkt:4:0:1:", "pkt:5:0:1:"} {
+			for k := 0; k < 3; k++ {
+				sc := &scenario{split: c.split, manual: false, wsize: c.wsize}
+				a := make([]byte, 20)
+				for i := range a {
+					a[i] = byte(0xa0 + i%16)
+				}
+				script := []string{"auto!0", "i!1!send:" + corr.Hex(a)}
+				for j := 0; j < k; j++ {
+					script = append(script, "w!ok")
+				}
+				script = append(script, "i!2!"+term)
+				w := runScenario(sc, func(w *World, step int) string {
+					if step < len(script) {
+						act := script[step]
+						if strings.HasPrefix(act, "w!") && len(w.W.Parked()) == 0 {
+							return "auto!0" // nothing parked (yet): a no-op keeps the script position aligned
+						}
+						if f := strings.Split(act, "!"); f[0] == "i" {
+							tid, _ := strconv.Atoi(f[1])
+							w.remember(tid, f[2])
+						}
+						return act
+					}
+					if len(w.W.Parked()) > 0 && step < 40 {
+						return "w!ok"
+					}
+					return ""
+				})
+				emit(sc, w, "term-between-frames")
+			}
+		}
+	}
 	// (D) the lent buffer: a message is being unmarshalled (MsgRecv holds the reader's buffer) when the
 	// stream is terminated; if that lets the reader's HandlePacket return, the reader reuses its
 	// buffer for the next packet (as drpcmanager's reader does) before the unmarshal finishes.
